@@ -175,8 +175,8 @@ def kornia_crop_and_resize(interp, input_tensor, boxes, size, mode="bilinear", p
         x = V.simplify_scalar(x) if isinstance(x, z3.ExprRef) else x
         if isinstance(x, float) and x == int(x):
             x = int(x)
-        if not isinstance(x, int):
-            raise Unsupported("crop_and_resize with a symbolic output size")
+        if not (isinstance(x, int) or (isinstance(x, z3.ExprRef) and z3.is_int(x))):
+            raise Unsupported("crop_and_resize with a non-integer output size")
         sz.append(x)
     oh, ow = sz
     B = input_tensor.shape[0]
@@ -201,7 +201,7 @@ def kornia_crop_and_resize(interp, input_tensor, boxes, size, mode="bilinear", p
         x2, y2 = bx([b, 2, 0]), bx([b, 2, 1])
         x3, y3 = bx([b, 3, 0]), bx([b, 3, 1])
         ok = V.b_and(V.f_eq(y1, y0), V.f_eq(x3, x0), V.f_eq(x2, x1), V.f_eq(y2, y3),
-                     V.f_eq(V.f_sub(x1, x0), float(ow - 1)), V.f_eq(V.f_sub(y3, y0), float(oh - 1)))
+                     V.f_eq(V.f_sub(x1, x0), T.cast_scalar(V.i_sub(ow, 1), FLOAT)), V.f_eq(V.f_sub(y3, y0), T.cast_scalar(V.i_sub(oh, 1), FLOAT)))
         return x0, y0, ok
 
     def pix(b, c, yy, xx):
